@@ -389,6 +389,12 @@ func keyRunRtPart(env *keyEnv) {
 		}
 	}
 	for _, s := range env.rsas {
+		if s.lenient {
+			// the typed builders only (the DER/PEM ones need the standard library to produce their input)
+			bs := keyRSABuildersTyped(s.key)
+			run(bs, &keyRtOrig{label: s.label, rsa: s.key, lenient: true}, true)
+			continue
+		}
 		run(keyRSABuilders(s.key), &keyRtOrig{label: s.label, rsa: s.key, multi: s.multi}, s.label == "r512" || s.label == "r1024-n80" || s.label == "r3primes")
 	}
 	for _, s := range env.ecs {
@@ -503,6 +509,10 @@ func keyReplay(env *keyEnv, l string) {
 			}
 		}
 		for _, s := range env.rsas {
+			if s.lenient {
+				try(keyRSABuildersTyped(s.key), &keyRtOrig{label: s.label, rsa: s.key, lenient: true})
+				continue
+			}
 			try(keyRSABuilders(s.key), &keyRtOrig{label: s.label, rsa: s.key, multi: s.multi})
 		}
 		for _, s := range env.ecs {
@@ -513,6 +523,16 @@ func keyReplay(env *keyEnv, l string) {
 		}
 		if env.blobs.cert != nil {
 			try(keyCertBuilders(env.blobs.cert), &keyRtOrig{label: "cert", cert: env.blobs.cert})
+		}
+		for _, it := range keyCustomItems(env) {
+			try([]keyBuilder{it.b}, it.orig)
+		}
+	case "key.outside", "key.regsweep":
+		// small deterministic parts: run them whole
+		if cmd == "key.outside" {
+			keyRunOutsidePart(env)
+		} else {
+			keyRegSweep(env)
 		}
 	}
 }
@@ -539,6 +559,8 @@ func keyRun(ctx *Ctx) {
 	keyRunAccessPart(env)
 	t2 := time.Now()
 	keyRunRtPart(env)
+	keyRunCustomPart(env)
+	keyRunOutsidePart(env)
 	keyRegSweep(env)
 	t3 := time.Now()
 	keyRunRetainPart(env)
